@@ -354,6 +354,15 @@ def patched_frames(ctx, rng, n):
                      'max separation %.3f arcsec over %d epochs in 1000-3000' % (worst, n))
 
 
+def size(ctx, quick, thorough, dense=None):
+    """sample count: when the source fingerprint of a modelled function changed (ctx.scale > 1) the quick tier
+    switches to the densest enumeration that still fits in 2-3 minutes (`dense`, default: the thorough count),
+    whatever the scale; otherwise the tier's own count"""
+    if ctx.tier == 'quick' and ctx.scale > 1:
+        return max(1, dense if dense is not None else thorough)
+    return ctx.n(quick, thorough)
+
+
 # ------------------------------------------------------------------ generator
 def generate(ctx, shard=0, nshards=1):
     rng = ctx.rng
@@ -363,12 +372,12 @@ def generate(ctx, shard=0, nshards=1):
         for j in (2451545.0, B1950_JDE, R['wide'][0], R['wide'][1], R['frames'][0], R['frames'][1], 2448908.5):
             j = norm_jde(j)
             tie_epoch(ctx, j, 'anchor', eqs=(2467616.0, B1950_JDE, 2451545.0))
-        patched_frames(ctx, rng, ctx.n(40, 400))
+        patched_frames(ctx, rng, size(ctx, 40, 400))
         for (y, m, d) in ((1987, 4, 10), (2000, 1, 1), (1992, 10, 13), (1582, 10, 4), (1582, 10, 15), (-1000, 7, 12),
                           (1, 1, 1), (9999, 12, 31), (2016, 12, 31), (1972, 1, 1), (3000, 2, 28), (2000, 2, 29)):
             check(ctx, 'date_forms', [y, m, d])
     # --- reflection / obliquity / nutation over -2000..4000
-    n = max(1, ctx.n(1200, 16000) // nshards)
+    n = max(1, size(ctx, 1200, 16000) // nshards)
     lo, hi = R['wide']
     for k in range(n):
         u = rng.random()
@@ -387,12 +396,12 @@ def generate(ctx, shard=0, nshards=1):
         if k % 3 == 0:
             tie_epoch(ctx, j, 'wide')
     lo, hi = R['iau']
-    for k in range(max(1, ctx.n(400, 6000) // nshards)):
+    for k in range(max(1, size(ctx, 400, 6000) // nshards)):
         j = norm_jde(rng.choice([rng.uniform(lo, hi), lo + rng.random() * 36525, hi - rng.random() * 36525]))
         check(ctx, 'obliquity_iau', [j])
     # --- frames, years 1000..3000, all seasons; equinox epochs within +-3 centuries (of the date and of J2000)
     lo, hi = R['frames']
-    n = max(1, ctx.n(480, 8000) // nshards)
+    n = max(1, size(ctx, 480, 8000) // nshards)
     for k in range(n):
         u = rng.random()
         if u < 0.12:
@@ -416,13 +425,13 @@ def generate(ctx, shard=0, nshards=1):
             tie_epoch(ctx, j, 'frames', eqs=eqs[:2])
     # --- coarse formulas, 1800..2200
     lo, hi = R['coarse']
-    for k in range(max(1, ctx.n(480, 8000) // nshards)):
+    for k in range(max(1, size(ctx, 480, 8000) // nshards)):
         j = norm_jde(rng.uniform(lo, hi))
         check(ctx, 'coarse_vs_vsop', [j])
         if k % 3 == 0:
             tie_epoch(ctx, j, 'coarse')
     # --- date forms
-    for k in range(max(1, ctx.n(64, 800) // nshards)):
+    for k in range(max(1, size(ctx, 64, 800) // nshards)):
         y = rng.choice([rng.randint(-2000, 4000), rng.randint(1, 9999), 1582, 1972, 2000])
         m = rng.randint(1, 12)
         d = rng.randint(1, 28)
